@@ -39,6 +39,10 @@
 (*               bytes.Reader.Seek; reset of LimitRead, digester, readBytes*)
 (*   Tell        BReader.Seek(0, io.SeekCurrent): position = readBytes      *)
 (*   SeekBad     BReader.Seek elsewhere: refused without side effect        *)
+(*   TarStop     archive/tar.Reader.Next returns io.EOF at the end-of-      *)
+(*               archive marker without reading the blob to its end         *)
+(*   TarWalkEnd  BTarReader.ReadFile over such an archive: drain, ignore    *)
+(*               the drain's error, compare the digest only                 *)
 (*   Stop        the caller stops after an end (clean or error)            *)
 (*   via tar*    types/blob/reader.go:ToTarReader hands the BReader itself *)
 (*               (reduced to Read) to types/blob/tar.go:NewTarReader, so   *)
@@ -84,6 +88,7 @@ CONSTANTS
   Withs,       \* subset of BOOLEAN: body returns EOF together with the last data
   Chunks,      \* max units one body read returns (1 = byte-wise source, Big = all)
   LyingSizes,  \* BOOLEAN: also descriptors whose size contradicts the digest
+  LieMax,      \* ... by up to this many symbols, larger or smaller
   InlineData,  \* BOOLEAN: also descriptors with an inline Data field
   Conc,        \* config.Host.ReqConcurrent of the registry (regclient's default is 3)
   Probes,      \* BOOLEAN: the caller may also ask for its position / try an arbitrary seek
@@ -91,6 +96,8 @@ CONSTANTS
   KeepSlots,   \* BOOLEAN: TRUE = throttle handling before the repair (findings/C01-2.md)
   TarUnverified, \* BOOLEAN: TRUE = tar paths as found, bypassing BReader.Read (findings/C01-1.md)
   MTs,         \* subset of BOOLEAN: the descriptor carries a media type (FALSE + size 0 = digest only)
+  Trailers,    \* subset of BOOLEAN: the tar access paths read an archive that ends with the
+               \* end-of-archive marker (two zero blocks), as every real layer does
   Sts,         \* status of a 2xx reply: subset of {"std" (200, 206 for a Range request), "alt"
                \* (206 for a plain request, 200 for a Range request)}
   DropKinds,   \* how a cut body fails: subset of {"ueof" (io.ErrUnexpectedEOF), "reset" (another error)}
@@ -128,10 +135,12 @@ Sym == {"a", "b"}
 Other(s) == IF s = "a" THEN "b" ELSE "a"
 SeqsUpTo(n) == UNION {[1..k -> Sym] : k \in 0..n}
 Content == SeqsUpTo(MaxLen)
-Big == MaxLen + 3
+Big == MaxLen + 5
 NoLim == -9
 NoCut == -1
 NoData == <<"-">>
+\* the end-of-archive marker of a tar stream: two zero blocks (symbol "z", only ever a suffix)
+Trailer(tr) == IF tr THEN <<"z", "z">> ELSE <<>>
 NoPend == [n |-> 0, data |-> <<>>, err |-> "none"]
 
 Min(a, b) == IF a < b THEN a ELSE b
@@ -145,7 +154,9 @@ Subst(c) == IF c = <<>> THEN <<"b">> ELSE [i \in 1..Len(c) |-> Other(c[i])]
 \* flipped, every proper prefix, one extra trailing symbol, a different blob altogether
 ServedOf(c) == {c} \cup {Flip(c, i) : i \in 1..Len(c)} \cup {Take(c, i) : i \in 0..(Len(c) - 1)}
                \cup {Append(c, s) : s \in Sym} \cup {Subst(c)}
-SizesOf(c) == {0, Len(c)} \cup (IF LyingSizes THEN {Len(c) + 1} \cup ({Len(c) - 1} \ {0, -1}) ELSE {})
+SizesOf(c) == {0, Len(c)} \cup (IF LyingSizes
+                                 THEN {Len(c) + d : d \in 1..LieMax} \cup ({Len(c) - d : d \in 1..LieMax} \cap (1..MaxLen))
+                                 ELSE {})
 DataOf(c) == IF InlineData
              THEN {NoData, c, Append(c, "a")} \cup {Flip(c, i) : i \in {1} \cap (1..Len(c))}
              ELSE {NoData}
@@ -167,14 +178,16 @@ R(op, n, err) == [seq |-> ret.seq + 1, op |-> op, n |-> n, err |-> err]
 ByErr(e) == IF e = "none" THEN "reading" ELSE IF e = "eof" THEN "clean" ELSE "error"
 
 Init ==
-  /\ \E c \in Content : \E sz \in SizesOf(c) : \E sv \in ServedOf(c) : \E d \in DataOf(c) :
-     \E sch \in Schemes : \E v \in Vias :
+  /\ \E v \in Vias : \E tr \in (IF v = "reader" THEN {FALSE} ELSE Trailers) :
+     \E c \in Content : \E sz \in (IF tr THEN {0, Len(c) + 2} ELSE SizesOf(c)) : \E sv \in ServedOf(c) :
+     \E d \in DataOf(c \o Trailer(tr)) : \E sch \in Schemes :
      \E w \in (IF sch = "reg" THEN Withs ELSE {FALSE}) : \E ch \in (IF sch = "reg" THEN Chunks ELSE {Big}) :
      \E lt \in (IF sch = "ocidir" /\ sv # c THEN BOOLEAN ELSE {FALSE}) :
      \E ex \in (IF sch = "reg" THEN Exts ELSE {0}) :
      \E mt \in (IF sch = "reg" THEN MTs ELSE {TRUE}) :
-        scn = [intended |-> c, size |-> sz, served |-> sv, data |-> d, scheme |-> sch, via |-> v,
-               with |-> w, chunk |-> ch, late |-> lt, ext |-> ex, mt |-> mt]
+        scn = [intended |-> c \o Trailer(tr), size |-> sz, served |-> sv \o Trailer(tr), data |-> d,
+               scheme |-> sch, via |-> v, with |-> w, chunk |-> ch, late |-> lt, ext |-> ex, mt |-> mt,
+               trailer |-> tr]
   /\ pc = "closed" /\ why = "open" /\ pend = NoPend /\ src = "none"
   /\ conn = [data |-> <<>>, end |-> "eof"]
   /\ readCur = 0 /\ readMax = 0 /\ rdone = FALSE /\ retry = 0 /\ backoff = 0
@@ -297,8 +310,33 @@ RespRead(k) ==
                           /\ pend' = [n |-> b.n, data |-> b.data, err |-> b.err]
                           /\ UNCHANGED <<rdone, rvars, got, cst, ret>>
 
+\* archive/tar.Reader.Next returns io.EOF as soon as it has parsed the end-of-archive marker; it
+\* does not read on to the end of the blob, so BReader.Read never sees io.EOF and its checks do not
+\* run; an error that arrived together with the marker's bytes stays in the bufio.Reader of
+\* pkg/archive.Decompress and is never looked at (findings/C01-3.md)
+\* (the tar paths use 512-byte symbols: of a unit beyond the LimitRead limit only the probe byte is
+\* handed over, so a marker block there is never complete)
+MarkerSeen == scn.trailer
+              /\ \E i \in 1..(Len(got) - 1) : got[i] = "z" /\ got[i + 1] = "z" /\ (bsize = 0 \/ i + 1 <= bsize)
+TarSawEnd == scn.via = "tariter" /\ MarkerSeen
+TarStop ==
+  /\ pc = "ready" /\ TarSawEnd /\ cst # "clean"
+  /\ cst' = "clean" /\ ret' = R("read", 0, "eof")
+  /\ UNCHANGED <<scn, pc, why, pend, src, tvars, rvars, got, seeks, again, extused>>
+
+\* types/blob/tar.go:ReadFile of an absent name over such an archive: the walk ends at the marker
+\* (whatever error came with its bytes stays in the bufio.Reader), the rest is drained with
+\* io.Copy(io.Discard, ...) whose error is ignored, and only the BTarReader's own digest comparison
+\* decides (tar.go:155-163)
+WalkDrained == scn.via = "tarwalk" /\ MarkerSeen
+TarWalkEnd ==
+  /\ pc = "ready" /\ WalkDrained /\ cst # "reading" /\ ret.op # "walkend"
+  /\ cst' = IF hashed = bdig THEN "clean" ELSE "error"
+  /\ ret' = R("walkend", 0, IF hashed = bdig THEN "eof" ELSE "digest")
+  /\ UNCHANGED <<scn, pc, why, pend, src, tvars, rvars, got, seeks, again, extused>>
+
 Read(k) ==
-  /\ pc = "ready"
+  /\ pc = "ready" /\ ~TarSawEnd /\ ret.op # "walkend"
   /\ cst = "reading" \/ again < MaxAgain
   /\ again' = IF cst = "reading" THEN again ELSE again + 1
   /\ UNCHANGED <<scn, src, seeks, extused>>
@@ -340,7 +378,7 @@ SeekBad ==
   /\ UNCHANGED <<scn, pc, why, pend, src, tvars, rvars, got, cst, seeks, again, extused>>
 
 Stop ==
-  /\ pc = "ready" /\ cst # "reading"
+  /\ pc = "ready" /\ cst # "reading" /\ (TarSawEnd => cst = "clean") /\ (WalkDrained => ret.op = "walkend")
   /\ pc' = "stopped"
   /\ UNCHANGED <<scn, why, pend, src, tvars, rvars, got, cst, ret, seeks, again, extused>>
 
@@ -455,7 +493,7 @@ ServeOK(r) ==
 ReadAny == \E k \in KS : Read(k)
 ServeErrAny == \E kind \in {"neterr", "http500", "http404"} : ServeErr(kind)
 ServeOKAny == \E r \in Replies : ServeOK(r)
-Next == Open \/ OpenFailed \/ Failed \/ ReadAny \/ Seek0 \/ Tell \/ SeekBad \/ Stop \/ GiveUp \/ ServeErrAny \/ ServeOKAny
+Next == Open \/ OpenFailed \/ Failed \/ TarStop \/ TarWalkEnd \/ ReadAny \/ Seek0 \/ Tell \/ SeekBad \/ Stop \/ GiveUp \/ ServeErrAny \/ ServeOKAny
 
 Done == pc = "stopped"
 Spec == Init /\ [][Next]_vars
